@@ -262,7 +262,13 @@ func runC04(c *Ctx) {
 	c.R.Check(nClose >= 4, r4, "router", "peer close sites enumerated", "-", fmt.Sprintf("found %d", nClose))
 	ruleSessionRemoval(c, r4)
 	c.R.Floor(r4, 18)
+
+	// R5: owner confinement
+	const r5 = "C04.R5 state of router/realm/broker/dealer is touched only from the owner's goroutine"
+	ruleConfinement(c, r5)
+	c.R.Floor(r5, 120)
 }
+
 
 // mayBeNilConst: the value is the nil constant on some incoming edge.
 func mayBeNilConst(v ssa.Value, depth int) bool {
